@@ -69,7 +69,8 @@ class C19(object):
                          'solve.horizon_set_on_solver',
                          'logfile.judged',
                          'logfile.after_a_model_that_failed_inside_main',
-                         'table_after_failed_series_lookups.judged')
+                         'table_after_failed_series_lookups.judged',
+                         'logfile.with_retrieval_options_set_before_main')
 
     def n_cases(self, tier):
         return 40 if tier == 'quick' else 4000
@@ -83,7 +84,9 @@ class C19(object):
             # the table as written to the 'timeseries' log file of Model.main(base): another model in the same process has
             # just FAILED inside its own main(base_a); then this model runs with main(base_b)
             return {'kind': 'logfile', 'builder': rng.choice(['SIM', 'SIMEX1', 'PC']), 'maxtime': rng.randint(2, 12),
-                    'failed_first': ['ConvergenceError', 'refused', None][(idx // 16) % 3]}
+                    'failed_first': ['ConvergenceError', 'refused', None][(idx // 16) % 3],
+                    # the retrieval options of Model.GetTimeSeries are set BEFORE main(): they concern what callers plot, not the table
+                    'retrieval_options_set_before_main': (idx // 16) % 2 == 0}
         if idx % 4 == 3:
             spec = G.gen_affine(rng, rho=rng.choice([0.2, 0.5]), tol=1e-8)
             case = {'kind': 'solve', 'spec': spec, 'text': G.render(spec), 'fmt': rng.choice(['%.5g', '%.12e', '%r']),
@@ -229,6 +232,10 @@ class C19(object):
                     bb = ambient.book_builders()[case['builder']](country_code='BB')
                     mb = bb.build_model()
                     mb.MaxTime = case['maxtime']
+                    if case.get('retrieval_options_set_before_main'):
+                        mb.TimeSeriesSupressTimeZero = True
+                        mb.TimeSeriesCutoff = 1
+                        rec.count('logfile.with_retrieval_options_set_before_main')
                     try:
                         mb.main(base_b)
                     except Exception as e:
